@@ -84,7 +84,7 @@ func runSolver(ctx context.Context, s solverSpec, file string, timeout, seed int
 	cctx, cancel := context.WithTimeout(ctx, time.Duration(timeout+5)*time.Second)
 	defer cancel()
 	cmd := exec.CommandContext(cctx, s.name, args...)
-	out, _ := cmd.CombinedOutput()
+	out, _ := cmd.Output() // stdout only: cvc5 writes logic warnings to stderr
 	line := strings.TrimSpace(strings.SplitN(string(out), "\n", 2)[0])
 	st := "unknown"
 	switch {
